@@ -260,9 +260,33 @@ def find_subseq_w(toks, lo, hi, anchor_text):
     return out
 
 
-def subst_caps(new, caps, toks, src):
+def rewrite_text(text, rewrites):
+    """apply the function's other text rewrites inside a captured argument (they would otherwise be swallowed by
+    the enclosing replacement)"""
+    for _rule, o, n in rewrites:
+        tk = tokenize(text)
+        occ = find_subseq_w(tk, 0, len(tk), o)
+        if not occ:
+            continue
+        out = []
+        cur = 0
+        for a, b, caps in occ:
+            if tk[a].pos < cur:
+                continue
+            out.append(text[cur:tk[a].pos])
+            rep = n
+            for k, (ca, cb) in caps.items():
+                rep = rep.replace(f"${k}", text[tk[ca].pos:tk[cb].end])
+            out.append(rep)
+            cur = tk[b].end
+        out.append(text[cur:])
+        text = "".join(out)
+    return text
+
+
+def subst_caps(new, caps, toks, src, others=()):
     for k, (a, b) in caps.items():
-        new = new.replace(f"${k}", src[toks[a].pos:toks[b].end])
+        new = new.replace(f"${k}", rewrite_text(src[toks[a].pos:toks[b].end], others))
     return new
 
 
@@ -950,7 +974,7 @@ def process_fn(toks, it, fs: FnSpec, qual, ed: Edits, log, unit_in_trait_impl):
         if not occ:
             raise LostAnchor(f"{qual}: rewrite {rule} anchor {old!r} not found")
         for a, b, caps in occ:
-            ed.replace(toks[a].pos, toks[b].end, subst_caps(new, caps, toks, src))
+            ed.replace(toks[a].pos, toks[b].end, subst_caps(new, caps, toks, src, [x for x in fs.rewrites if x[1] != old]))
         log["rewrites"].append({"rule": rule, "fn": qual, "before": old, "after": new, "count": len(occ)})
     # hints
     for where, anchor, nth, raw in fs.hints:
